@@ -36,7 +36,7 @@ namespace c17
         bool checkMotion(const ob::State *a, const ob::State *b) const override
         {
             // (collapseCloseVertices spends O(n^2 log n) per step in its distance table and validates one motion per step)
-            if (recording && (++polls & 31) == 0 && world::cpuSeconds() > cpuBudget)
+            if (recording && (++polls & pollMask) == 0 && world::cpuSeconds() > cpuBudget)
                 throw world::BudgetExhausted();
             bool ok = real_.checkMotion(a, b);
             if (ok && recording)
@@ -63,6 +63,7 @@ namespace c17
         bool recording = false;
         double cpuBudget = 1e9;
         mutable unsigned polls = 0;  // (getrusage on every call costs more system time than the motion checks themselves)
+        unsigned pollMask = 31;      // 0 for routines that do a lot of work between two motion checks (collapseCloseVertices)
 
     private:
         ob::DiscreteMotionValidator real_;
@@ -348,6 +349,7 @@ namespace c17
             c.w->validBudget = c.w->validCalls.load() + (o.thorough() ? 6000000 : 1500000);
             c.w->cpuBudget = o.thorough() ? 8.0 : 4.0;  // CPU seconds of the whole case (the hard limit is 30 / 10)
             world::ledger().cpuBudget = c.rec->cpuBudget = c.w->cpuBudget;
+            c.rec->pollMask = k == "collapseCloseVertices" ? 0 : 31;
             world::ledger().armed = true;
             try
             {
@@ -369,7 +371,12 @@ namespace c17
                 }
                 else if (k == "collapseCloseVertices")
                 {
-                    ps.collapseCloseVertices(*path, ms, me);
+                    // (its table of all pairwise distances is searched completely before every single motion check: with more
+                    // than 1500 states one step alone takes seconds in the ASan build, out of reach of the step budget)
+                    if (path->getStateCount() <= 1500)
+                        ps.collapseCloseVertices(*path, ms, me);
+                    else
+                        res.probes["collapseCloseVertices-skipped(path-longer-than-1500-states)"]++;
                     mustNotLengthen = true;
                 }
                 else if (k == "smoothBSpline")
